@@ -307,6 +307,14 @@ def work_c08(prop, tier, seed, widx, nworkers):
             case['ctl']['batch'] = rng.choice([2, 3, 4, 6])
             if rng.random() < 0.3:
                 case['ctl']['cancel_at'] = {str(rng.randrange(k)): rng.randint(2, 40)}
+            if rng.random() < 0.3:
+                # charts sharing node classes: some runs use a second chart whose output is an inner node
+                inner = [n for n in gen.eager_closure(prog, prog['output']) if n not in (prog['input'], prog['output'])
+                         and prog['nodes'][n].get('kind', 'plain') == 'plain']
+                if inner:
+                    o2 = rng.choice(sorted(inner))
+                    case['outputs'] = [o2 if rng.random() < 0.5 else None for _ in runs]
+                    acc.counters['cases_with_second_chart'] = acc.counters.get('cases_with_second_chart', 0) + 1
             res = cases.run_case(case, built)
             for f in res['findings']:
                 if 'C08' not in f['prop']:
